@@ -12,7 +12,7 @@ def destRun (kind : Kind) (alloc : Bool) : List String → Option State → Opti
     let c0 := tok.toList.headD ' '
     let arg := (String.ofList (tok.toList.drop 1))
     if c0 = 'S' then
-      let ob : OutBuf := if tok = "Snull" then .null else if tok = "Sreuse" then .reuse lastSize
+      let ob : OutBuf := if tok = "Snull" then .null else if tok = "Sreuse" then .reuse lastSize else if tok = "Sreuse0" then .reuse 0
         else .own (arg.toNat?.getD 0)
       match start kind alloc ob prev with
       | .error _ => acc ++ s!" err{Gen.JERR_BUFFER_SIZE}"
